@@ -220,3 +220,38 @@ func verifTxRecord(fixedLayout bool) {
 	verifrt.Assert(e.hVal == oe.hVal, "entry value digest is the original one")
 	verifrt.Assert(len(verifKVMDBytes(e.md)) == 0, "entry metadata is the original (empty) one")
 }
+
+// VerifH_SlicedReaderAt: the reader that serves a transaction record from the tx-log cache. The
+// offset and size it is asked for come from the commit log (on disk, possibly corrupted), the
+// bytes from memory. For every record length, base offset, requested offset and buffer length
+// (all symbolic, small) ReadAt never panics; a request outside the record is an error or an
+// empty read; inside it, it delivers exactly the record bytes from that position, returns how
+// many it delivered, and reports io.EOF iff the buffer was not filled.
+func VerifH_SlicedReaderAt() {
+	rl, bl := verifrt.Param("reclen"), verifrt.Param("buflen")
+	rec := verifrt.Bytes("rec", rl)
+	base, off := verifrt.I64("base"), verifrt.I64("off")
+	verifrt.Assume(base >= 0 && base <= 8 && off >= 0 && off <= 24)
+	r := &slicedReaderAt{bs: rec, off: base}
+	buf := make([]byte, bl)
+	n, err := r.ReadAt(buf, off)
+	verifrt.Assert(n >= 0 && n <= bl, "the count returned is what was delivered")
+	if off < base || off > base+int64(rl) {
+		verifrt.Assert(err != nil || n == 0, "outside the record: an error or nothing")
+		verifrt.Reach("outside")
+		return
+	}
+	o := int(off - base)
+	want := rl - o
+	if want > bl {
+		want = bl
+	}
+	verifrt.Assert(n == want, "delivers the record bytes available from that position, at most the buffer")
+	for k := 0; k < bl; k++ {
+		if k < n && o+k < rl {
+			verifrt.Assert(buf[k] == rec[o+k], "the bytes are the record's, from the requested position")
+		}
+	}
+	verifrt.Assert((err == verifEOF()) == (n < bl) && (err == nil || err == verifEOF()), "io.EOF iff the buffer was not filled")
+	verifrt.Reach("inside")
+}
